@@ -236,12 +236,15 @@ def emit_unit(unit, outdir):
 
     def bind_roles(txt):
         for k, v in roles.items():
-            txt = txt.replace('{%s}' % k, v)
+            txt = txt.replace('{%s}' % k, str(v))
         return txt
     for key, txt in unit.loop_contracts.items():
         ex.loop_contracts[(X.cname_of(unit.fn), key)] = bind_roles(txt)
     for key, txt in unit.ghost.items():
-        ex.ghost[(X.cname_of(key[0]), key[1])] = bind_roles(txt)
+        anchor = key[1]
+        if isinstance(anchor[1], str) and anchor[1].startswith('ROLE:'):
+            anchor = (anchor[0], roles[anchor[1][5:]])      # the statement ordinal itself is bound by role
+        ex.ghost[(X.cname_of(key[0]), anchor)] = bind_roles(txt)
     cn = ex.require_mangled(unit.fn)
     needed = [unit.pre, unit.post] + unit.needs
     for (g, gpre, gpost) in unit.replace:
@@ -277,10 +280,13 @@ def emit_unit(unit, outdir):
     if unit.cut_check:
         # (function, if ordinal, names that must NOT be referenced after that statement)
         cfn, iford, forbidden = unit.cut_check
+        inclusive = False
+        if isinstance(iford, str) and iford.startswith('ROLE:'):
+            iford, inclusive = roles[iford[5:]], True       # cut BEFORE that statement: it belongs to the suffix
         ex.require_mangled(cfn)
         if forbidden == 'PARAMS':
             forbidden = [c['name'] for c in X.kids(ast.fn_def_by_mangled[cfn]) if c.get('kind') == 'ParmVarDecl']
-        after = ex.names_referenced_after_if(X.cname_of(cfn), iford)
+        after = ex.names_referenced_after_if(X.cname_of(cfn), iford, inclusive)
         bad = sorted(set(forbidden) & after)
         if bad:
             raise Undecided('%s: the code after the cut point still reads %s; the factorisation argument does not apply' % (unit.id, bad))
@@ -467,10 +473,11 @@ def solve_unit(unit, workdir, seed=0):
             warnings.append('%s/%s: %s' % (unit.id, backend, msgs[:1]))
             return False, dt
         got = False
-        for r in results:
-            if r['property'] in plist and r['status'] in ('SUCCESS', 'FAILURE'):
-                status[r['property']] = (r['status'], backend, dt)
-                got = True
+        decided = [r for r in results if r['property'] in plist and r['status'] in ('SUCCESS', 'FAILURE')]
+        for r in decided:
+            # one solver process decided all of them: its wall time is shared out evenly for the report
+            status[r['property']] = (r['status'], backend, dt / max(1, len(decided)))
+            got = True
         return got, dt
 
     if not unit.split:
